@@ -52,6 +52,11 @@ def value_pool():
     for dt in ("complex64", "complex128"):
         for x in (0j, complex(0.0, -0.0), complex(-0.0, 0.0), 1 + 0j, complex(nan, 1.0), complex(nan, 2.0), complex(1.0, nan)):
             pool.append(_np(dt, x))
+    # NumPy scalars whose *unpadded* per-byte hex renderings coincide (0x0110 / 0x1100, 0x3f800123 / 0x3f801203):
+    # any key or name derived from such a rendering confuses them
+    pool += [["np", "float16", "1001"], ["np", "float16", "0011"], ["np", "float32", "2301803f"], ["np", "float32", "0312803f"],
+             ["np", "complex64", "2301803f00000000"], ["np", "complex64", "0312803f00000000"],
+             ["np", "float32", "0000c03f"], ["np", "float64", "000000000000f83f"], ["np", "float16", "003e"]]
     pool += [["s", n] for n in NAMED] + [["s", a] for a in ALIASES]
     return pool
 
